@@ -82,6 +82,10 @@ impl<P: Protocol> MockCloud<P> {
         }
     }
 
+    pub fn v_clear_fake_peers(&mut self) {
+        self.peers.retain(|_, p| p.node_id != [9; 16]);
+    }
+
     /// a peer entry with a plain (unencrypted) session that advertised the given timeout — only for the sweep of the announcement interval
     pub fn v_add_fake_peer(&mut self, addr: SocketAddr, peer_timeout: u16) {
         let mut crypto = self.crypto.peer_instance(self.create_node_info());
